@@ -333,11 +333,15 @@ def one_program(ctx, alg, cfg, name, prog, plain_ns, reg_ns):
             ctx.note_raised(want, 'plain')
         return
     want_e = as_elem(want)
-    try:
-        finite = all((complex(v) == complex(v)) and abs(complex(v)) != float('inf') for v in want_e.values()
-                     if not hasattr(v, 'free_symbols') and not hasattr(v, 'shape'))
-    except Exception:
-        finite = True
+    def _finite(v):
+        import numpy as _np
+        if hasattr(v, 'free_symbols'):
+            return True
+        try:
+            return bool(_np.all(_np.isfinite(_np.asarray(v, dtype=complex))))
+        except Exception:
+            return True
+    finite = all(_finite(v) for v in want_e.values())
     if not finite:
         # numpy scalars turn a division by zero into inf / nan (with a warning) where Python numbers raise: the plain function
         # has no value here either
